@@ -235,6 +235,15 @@ func consUnits(thorough bool) []*unit {
 			}})
 		}
 	}
+	// sequences from one peer with a budget on what the node keeps on its behalf
+	for _, st := range allNodeStates {
+		for _, pm := range []string{peerFresh, peerKnown} {
+			st, pm := st, pm
+			add(&unit{State: st, Peer: pm, Kind: "retained", Msg: "sequences", Est: 1500, gen: func(w *worker, u *unit, emit func(*caseT)) {
+				genRetained(w, st, pm, emit)
+			}})
+		}
+	}
 	// stored consensus messages followed by the drive-on (the node must survive what it kept)
 	for _, st := range allNodeStates {
 		st := st
